@@ -165,6 +165,9 @@ class World(object):
         self.stale_seen = False
         self.excluded = None
         self.max_in_cs = 0
+        self.cycle = {}                 # thread id -> current cycle number
+        self.kept = {}                  # thread id -> lock object kept alive until after the final probe
+        self.faults = set((int(t), int(c)) for t, c in cfg.get('faults') or [])
         if cfg['kind'] == 'sem':
             self.slots = [self.path + str(i) for i in range(cfg['n'])]
             self.limit = cfg['n']
@@ -279,6 +282,12 @@ class World(object):
 
     def remove(self, path, *a, **kw):
         self.sched.point('remove')
+        tid = self.tid()
+        if (tid, self.cycle.get(tid)) in self.faults and os.path.exists(path):
+            # injected fault: the unlink is refused although the file exists (sticky / read-only lock directory,
+            # file owned by another user); the file stays
+            self.sched.log('remove-eperm', slot=path)
+            raise PermissionError(errno.EPERM, 'Operation not permitted (injected)', path)
         try:
             os.remove(path, *a, **kw)
         except OSError:
@@ -366,19 +375,28 @@ def variant_name(cfg):
     return 'file-remove' if cfg['remove'] else 'file-keep'
 
 
-def contender(world, ncycles):
+def contender(world, ncycles, keep=False):
+    """`keep`: the contender uses ONE FileLock/SemLock object for all its cycles and keeps it alive after it has
+    finished (until after the final re-acquisition probe); otherwise a throw-away object per cycle, dropped right
+    after unlock() like `with FileLock(...)` callers do."""
     mlock, _ = _mods()
     sched = world.sched
     tid = world.tid()
+    lk = None
     for c in range(ncycles):
-        lk = world.make_lock()
+        world.cycle[tid] = c
+        if lk is None:
+            lk = world.make_lock()
+            if keep:
+                world.kept[tid] = lk
         sched.log('lock-call', cycle=c)
         t0 = sched.now()
         try:
             lk.lock()
         except mlock.LockTimeout:
             sched.log('timeout', cycle=c, waited=sched.now() - t0)
-            lk = None
+            if not keep:
+                lk = None
             continue
         except Exception as e:
             label = sched.threads[tid].label
@@ -387,7 +405,8 @@ def contender(world, ncycles):
                             'lock() raised %s: %s (last file-system call: %s) instead of returning or LockTimeout'
                             % (type(e).__name__, e, label))
             e = None
-            lk = None
+            if not keep:
+                lk = None
             continue
         world.cs_enter(tid, c)
         sched.point('cs')
@@ -399,9 +418,11 @@ def contender(world, ncycles):
             sched.log('raised', cycle=c, exc=type(e).__name__, op=label)
             world.violation('C07/unlock-raised/%s@%s' % (type(e).__name__, label),
                             'unlock() raised %s: %s' % (type(e).__name__, e))
-        if any(h.owner == tid and not h.closed for h in world.handles):
-            sched.point('drop')
-        lk = None
+        sched.log('unlock-done', cycle=c)
+        if not keep:
+            if any(h.owner == tid and not h.closed for h in world.handles):
+                sched.point('drop')
+            lk = None
         sched.log('released', cycle=c)
 
 
@@ -418,25 +439,36 @@ def analyse(world, outcome, fresh_error):
     trace = sched.trace
     vio = list(world.violations)
     feats = set()
-    # flock hold intervals per handle
+    # flock hold intervals per handle; a lock whose holder's unlock() has returned is not "held" any more,
+    # whatever happens to the handle afterwards
     holds = {}
     for seq, tid, kind, d in trace:
         if kind == 'flock-ok':
-            holds[d['hid']] = [seq, len(trace), tid, d['slot']]
+            holds[d['hid']] = [seq, len(trace), tid, d['slot'], True]
             if d['stale']:
                 feats.add('flock-ok-on-unlinked-inode')
         elif kind == 'closed' and d['hid'] in holds:
-            holds[d['hid']][1] = seq
+            if holds[d['hid']][4]:
+                holds[d['hid']][1] = seq
+                holds[d['hid']][4] = False
+        elif kind == 'unlock-done':
+            for hv in holds.values():
+                if hv[2] == tid and hv[4]:
+                    hv[1] = seq
+                    hv[4] = False
+                    feats.add('handle-open-after-unlock')
         elif kind == 'flock-fail':
             feats.add('contention')
         elif kind == 'remove-failed':
             feats.add('remove-failed')
+        elif kind == 'remove-eperm':
+            feats.add('remove-eperm')
         elif kind == 'chmod-enoent':
             feats.add('chmod-enoent')
     intervals = list(holds.values())
 
     def held_by_other(slot, tid, a, b):
-        return any(s == slot and o != tid and lo <= b and hi >= a for lo, hi, o, s in intervals)
+        return any(s == slot and o != tid and lo <= b and hi >= a for lo, hi, o, s, _ in intervals)
 
     # attempts per lock() call
     per_thread = {}
@@ -549,11 +581,15 @@ def run_case(cfg, chooser, lockdir, exclude=frozenset(), max_steps=3000):
     fresh_error = None
     try:
         with patched(world):
-            for ncycles in cfg['cycles']:
-                sched.spawn(contender, args=(world, ncycles))
-            outcome = sched.run()
-            if outcome == 'done' and not world.violations:
-                fresh_error = fresh_attempt(world)
+            keep = list(cfg.get('keep') or [])
+            try:
+                for i, ncycles in enumerate(cfg['cycles']):
+                    sched.spawn(contender, args=(world, ncycles, bool(keep[i]) if i < len(keep) else False))
+                outcome = sched.run()
+                if outcome == 'done' and not world.violations:
+                    fresh_error = fresh_attempt(world)
+            finally:
+                world.kept.clear()
         return analyse(world, outcome, fresh_error)
     finally:
         for h in world.handles:
@@ -579,7 +615,9 @@ def scratch_dir():
 
 def public_cfg(cfg):
     return {'kind': cfg['kind'], 'remove': bool(cfg.get('remove')), 'n': int(cfg.get('n') or 1),
-            'perm': cfg.get('perm'), 'cycles': list(cfg['cycles']), 'timeout_steps': int(cfg['timeout_steps'])}
+            'perm': cfg.get('perm'), 'cycles': list(cfg['cycles']), 'timeout_steps': int(cfg['timeout_steps']),
+            'keep': [bool(k) for k in (cfg.get('keep') or [False] * len(cfg['cycles']))],
+            'faults': sorted([int(t), int(c)] for t, c in (cfg.get('faults') or []))}
 
 
 def judge(cfg, res, stats, source):
@@ -596,6 +634,8 @@ def judge(cfg, res, stats, source):
     nontrivial = 'failed-attempt' in feats and 'switch-between-open-and-flock' in feats
     classes = ['src:' + source, 'variant:' + variant_name(cfg), 'contenders:%d' % len(cfg['cycles']),
                'perm:' + ('set' if cfg['perm'] else 'none'), 'preemptions:%d' % min(res.preemptions, 6),
+               'objects:' + ('kept-alive' if all(cfg['keep']) else 'mixed' if any(cfg['keep']) else 'throw-away'),
+               'remove-faults:%d' % min(len(cfg['faults']), 3),
                'outcome:' + res.outcome.split(':')[0]]
     classes += ['f:' + f for f in sorted(feats)]
     stats.case(key=case, nontrivial=nontrivial, classes=classes, sample=case)
@@ -621,8 +661,9 @@ def dfs_configs(tier):
     SemLock n>=2 multiplies by the randint draws."""
     quick = tier == 'quick'
 
-    def cfg(kind, remove, n, cycles, perm=None, t=1):
-        return {'kind': kind, 'remove': remove, 'n': n, 'perm': perm, 'timeout_steps': t, 'cycles': cycles}
+    def cfg(kind, remove, n, cycles, perm=None, t=1, keep=None, faults=()):
+        return {'kind': kind, 'remove': remove, 'n': n, 'perm': perm, 'timeout_steps': t, 'cycles': cycles,
+                'keep': list(keep) if keep else [False] * len(cycles), 'faults': [list(f) for f in faults]}
     out = []
     for kind, remove, n in (('file', True, 1), ('file', False, 1), ('sem', False, 1), ('sem', False, 2)):
         big = kind == 'sem' and n > 1
@@ -635,7 +676,16 @@ def dfs_configs(tier):
             out.append((cfg(kind, remove, n, [1, 1, 1], perm='644'), 2 if quick or not main else 3))
     # longer polling (three attempts per lock call) for the release-by-remove style
     out.append((cfg('file', True, 1, [2, 2], t=2), 2 if quick else 4))
+    # unlink refused (EPERM, file stays) in some unlock calls; lock objects kept alive / thrown away
+    out.append((cfg('file', True, 1, [2, 2], keep=[1, 1], faults=[(0, 0)]), 2 if quick else 3))
+    out.append((cfg('file', True, 1, [2, 2], keep=[1, 0], faults=[(0, 0), (1, 0)]), 2 if quick else 3))
+    out.append((cfg('file', True, 1, [2, 2], keep=[0, 0], faults=[(0, 1), (1, 0)]), 2 if quick else 3))
+    out.append((cfg('file', True, 1, [2, 2], keep=[1, 1]), 2 if quick else 4))
+    out.append((cfg('file', True, 1, [1, 1, 1], keep=[1, 1, 1], faults=[(1, 0)]), 1 if quick else 3))
     if not quick:
+        out.append((cfg('file', False, 1, [2, 2], keep=[1, 1]), 3))
+        out.append((cfg('sem', False, 2, [2, 2], keep=[1, 1]), 2))
+        out.append((cfg('file', True, 1, [2, 2], perm='644', keep=[1, 0], faults=[(0, 0)]), 2))
         out.append((cfg('file', True, 1, [1, 1, 1], t=2), 3))
         out.append((cfg('sem', False, 3, [1, 1, 1]), 2))
         out.append((cfg('file', True, 1, [1, 1, 1, 1]), 2))
@@ -665,10 +715,17 @@ def dfs_shard(shard, nshards, seed, tier):
                         found.add(v.signature)
                         stats.violations.append(v)
             stats.extra['dfs_schedules'] = stats.extra.get('dfs_schedules', 0) + n
-            scope.append('%s perm=%s cycles=%r timeout=%d step: all schedules with <= %d preemptions'
-                         % (variant_name(cfg), cfg['perm'], cfg['cycles'], cfg['timeout_steps'], bound))
-            stats.extra['dfs_schedules:%s/perm=%s/T%d/%s/k%d' % (variant_name(cfg), cfg['perm'], cfg['timeout_steps'],
-                                                                 'x'.join(map(str, cfg['cycles'])), bound)] = n
+            tag = ''
+            if any(cfg.get('keep') or []) or cfg.get('faults'):
+                tag = ' kept-objects=%r remove-EPERM-at(contender,cycle)=%r' % (
+                    [int(bool(k)) for k in cfg['keep']], cfg['faults'])
+            scope.append('%s perm=%s cycles=%r timeout=%d step%s: all schedules with <= %d preemptions'
+                         % (variant_name(cfg), cfg['perm'], cfg['cycles'], cfg['timeout_steps'], tag, bound))
+            stats.extra['dfs_schedules:%s/perm=%s/T%d/%s%s/k%d' % (
+                variant_name(cfg), cfg['perm'], cfg['timeout_steps'], 'x'.join(map(str, cfg['cycles'])),
+                ('/keep%s/faults%s' % (''.join(str(int(bool(k))) for k in cfg['keep']),
+                                       ','.join('%d.%d' % tuple(f) for f in cfg['faults']))
+                 if any(cfg['keep']) or cfg['faults'] else ''), bound)] = n
     finally:
         shutil.rmtree(lockdir, ignore_errors=True)
     if shard == 0:
@@ -688,6 +745,20 @@ def cases(draw):
            'n': draw(st.integers(1, 3)) if variant == 'sem' else 1,
            'perm': draw(st.sampled_from([None, None, '644'])),
            'cycles': cycles, 'timeout_steps': draw(st.sampled_from([1, 1, 2, 3, 5]))}
+    # lock objects: throw-away per cycle, one kept-alive object per contender, or a mix
+    mode = draw(st.sampled_from(['throw-away', 'throw-away', 'kept', 'mixed']))
+    if mode == 'throw-away':
+        cfg['keep'] = [False] * ncont
+    elif mode == 'kept':
+        cfg['keep'] = [True] * ncont
+    else:
+        cfg['keep'] = [draw(st.booleans()) for _ in range(ncont)]
+    # injected fault: os.remove refused with EPERM (file stays) in a drawn subset of the unlock calls
+    cfg['faults'] = []
+    if variant == 'file-remove' and draw(st.integers(0, 2)) > 0:
+        units = [(t, c) for t in range(ncont) for c in range(cycles[t])]
+        picked = draw(st.lists(st.sampled_from(units), min_size=1, max_size=min(4, len(units)), unique=True))
+        cfg['faults'] = sorted([t, c] for t, c in picked)
     pairs = draw(st.lists(st.tuples(st.integers(0, 12 * ncont), st.integers(0, 3)), max_size=8))
     data = draw(st.lists(st.integers(0, 2), max_size=6))
     return {'cfg': cfg, 'pairs': pairs, 'data': data}
